@@ -16,6 +16,9 @@
   universally quantified: nothing below assumes anything about them.
 -/
 import ClairModel.Proofs.Fetch
+import ClairModel.Proofs.FetchReader
+import ClairModel.Proofs.FetchSched
+import ClairModel.Proofs.FetchMisc
 
 -- every variable of a property statement is bound explicitly: a misspelt name is an error, not a new variable
 set_option autoImplicit false
@@ -54,7 +57,8 @@ theorem published_payload_exact (P : Params) (arena : Arena) (key uri : Bytes) (
       effectiveCT r.ctype kind = some ct ∧ wantKind ct = some kind ∧
       decompress P kind r.body .eof = some payload := by
   obtain ⟨_, ha⟩ := (publish_iff P true arena key uri r r.body k payload).1 h
-  obtain ⟨dg, kind, ct, _, hk, hct, hw, hdec, _⟩ := ha.rest
+  obtain ⟨dg, kind, ct, _, hk, hct, hw, hsp, _⟩ := ha.rest
+  have hdec := (spool_some hsp).1
   have ht := ha.drained rfl
   rw [ht] at hk hdec
   exact ⟨kind, ct, hk, wantKind_supported hw, hct, hw, hdec⟩
@@ -168,7 +172,8 @@ theorem reject_undecodable (P : Params) (arena : Arena) (key uri : Bytes) (r : R
     (h : decompress P k r.body r.term = none) :
     (fetchUnlinked P arena key uri r).out = none ∧ ∀ k p, .publish k p ∉ (fetchUnlinked P arena key uri r).effs :=
   not_accept_rejects hmiss fun _ ha => by
-    obtain ⟨_, k', _, _, hk', _, _, hdec, _⟩ := ha.rest
+    obtain ⟨_, k', _, _, hk', _, _, hsp, _⟩ := ha.rest
+    have hdec := (spool_some hsp).1
     rw [hk] at hk'
     cases hk'
     rw [h] at hdec
@@ -319,6 +324,124 @@ theorem failed_layer_fails_call (P : Params) (s : State) (id : Nat) (pre post : 
     subst hk
     rfl
 
+/-! ## one download, one request; the spool file -/
+
+/-- A fetch makes at most one request: there is no second attempt whose bytes
+    could be mixed with those of the first. -/
+theorem at_most_one_request (P : Params) (arena : Arena) (key uri : Bytes) (r : Resp) :
+    (fetchUnlinked P arena key uri r).requests ≤ 1 := by
+  unfold fetchUnlinked fetchCore fetchCoreH FileResult.requests
+  repeat' split
+  all_goals simp
+
+/-- The request is made exactly when the description is valid and the arena has
+    no file under the digest string. -/
+theorem request_iff_valid_miss (P : Params) (arena : Arena) (key uri : Bytes) (r : Resp) :
+    (fetchUnlinked P arena key uri r).requests = 1 ↔
+      (uri ≠ [] ∧ (digestParse key).isSome ∧ P.uriOK uri = true ∧ arena.lookup key = none) := by
+  unfold fetchUnlinked fetchCore fetchCoreH FileResult.requests
+  repeat' split
+  all_goals simp_all
+
+/-- A spool file that cannot take the decompressed payload (ENOSPC, EFBIG,
+    EIO at any point of the copy or the flush) makes the fetch fail and nothing
+    is stored. -/
+theorem reject_spool_failure (P : Params) (arena : Arena) (key uri : Bytes) (r : Resp)
+    (hmiss : arena.lookup key = none)
+    (h : ∀ k p, decompress P k r.body r.term = some p → fits r.disk p = false) :
+    (fetchUnlinked P arena key uri r).out = none ∧ ∀ k p, .publish k p ∉ (fetchUnlinked P arena key uri r).effs :=
+  not_accept_rejects hmiss fun payload ha => by
+    obtain ⟨_, k, _, _, _, _, _, hsp, _⟩ := ha.rest
+    obtain ⟨hdec, hfit⟩ := spool_some hsp
+    rw [h k payload hdec] at hfit
+    cases hfit
+
+/-- What is published was written to the spool file completely. -/
+theorem published_fits_disk (P : Params) (arena : Arena) (key uri : Bytes) (r : Resp)
+    (k payload : Bytes) (h : .publish k payload ∈ (fetchUnlinked P arena key uri r).effs) :
+    fits r.disk payload = true := by
+  obtain ⟨_, ha⟩ := (publish_iff P true arena key uri r r.body k payload).1 h
+  obtain ⟨_, _, _, _, _, _, _, hsp, _⟩ := ha.rest
+  exact (spool_some hsp).2
+
+/-! ## consumers of a realized layer: every byte read is the payload's byte -/
+
+section consumers
+open ClairModel.FetchReader
+
+/-- Whatever any number of consumers do with readers of one Layer, in any
+    interleaving - `Read`, `ReadAt`, `Seek`, `io.Copy`, new readers - every
+    byte string handed to any of them is a stretch of the payload. -/
+theorem reader_bytes_are_payload_bytes (s : LState) (ops : List (Nat × ROp)) (c : Nat) (b : Bytes)
+    (h : (c, ROut.bytes b) ∈ (run s ops).2) : ∃ off, b = (s.payload.drop off).take b.length :=
+  run_bytes ops s c b h
+
+/-- A consumer's results do not depend on what other consumers of the same
+    Layer do in between: they are what it would get if it were alone. -/
+theorem consumers_independent (s : LState) (ops : List (Nat × ROp)) (c : Nat) :
+    (run s ops).2.filter (fun o => o.1 == c) = (run s (ops.filter (fun o => o.1 == c))).2 :=
+  (run_indep c ops s s ⟨rfl, rfl, rfl⟩).1
+
+/-- A consumer that only reads forward (`Read`, `io.Copy`) from a cursor at
+    `p` gets consecutive bytes of the payload starting at `p`. -/
+theorem sequential_consumer_reads_consecutive_bytes (s : LState) (c p : Nat) (ops : List (Nat × ROp))
+    (hopen : s.closed = false) (hr : s.rd c = some p) (hseq : ∀ o ∈ ops, o.1 = c ∧ isSeq o.2 = true) :
+    bytesOf (run s ops).2 = (s.payload.drop p).take (bytesOf (run s ops).2).length :=
+  (seq_run ops s c p hopen hr hseq).1
+
+/-- After any history, a new `Layer.Reader()` copied to its end yields the
+    whole payload - not the remainder somebody else left. -/
+theorem fresh_reader_reads_whole_payload (s : LState) (ops : List (Nat × ROp)) (c : Nat) (hopen : s.closed = false) :
+    (run (run s ops).1 [(c, .open_), (c, .copy)]).2 = [(c, .opened), (c, .bytes s.payload)] := by
+  have hf := run_frame ops s
+  have hc : (run s ops).1.closed = false := hf.2.trans hopen
+  generalize (run s ops).1 = s1 at hf hc
+  have hp := hf.1
+  by_cases hz : s1.payload.length ≤ 0
+  · have he : s1.payload = [] := List.eq_nil_of_length_eq_zero (by omega)
+    simp [run, FetchReader.step, hc, LState.set, he, ← hp]
+  · simp [run, FetchReader.step, hc, LState.set, hz, ← hp]
+
+/-- Once the fetch proxy is closed no operation delivers a byte, also through
+    readers obtained before. -/
+theorem closed_layer_gives_no_bytes (s : LState) (c : Nat) (op : ROp) (b : Bytes)
+    (h : (FetchReader.step s.close c op).2 = .bytes b) : b = [] :=
+  step_closed s.close c op b rfl h
+
+end consumers
+
+/-! ## concurrent users of one arena -/
+
+section sched
+open ClairModel.FetchSched
+
+/-- Under every schedule of tasks entering the singleflight, downloads being
+    answered and proxies being closed, every file in the arena is verified
+    for the digest string it is stored under. -/
+theorem sched_arena_always_verified (P : Params) (ops : List SOp) :
+    ArenaInv P (Sm.run (FetchSched.step P) FetchSched.init ops).arena :=
+  Sm.invariant_run (Inv := fun s => ArenaInv P s.arena) (fun s op h => (FetchSched.step_inv P s op h).1) ops
+    FetchSched.init (by intro e he; cases he)
+
+/-- Under every schedule, a task that gets a layer - as the leader of a
+    download, by joining one in flight, or from the arena - gets bytes verified
+    for the digest of *its own* description. -/
+theorem sched_exposed_payload_verified (P : Params) (ops : List SOp) (op : SOp) (rs : List (Nat × Res))
+    (id : Nat) (p : Bytes)
+    (h : (FetchSched.step P (Sm.run (FetchSched.step P) FetchSched.init ops) op).2 = .results rs)
+    (hm : (id, Res.ok (.tar p)) ∈ rs) :
+    ∃ t ∈ (Sm.run (FetchSched.step P) FetchSched.init ops).tasks, t.id = id ∧ Verified P t.req.key p :=
+  (FetchSched.step_inv P _ op (sched_arena_always_verified P ops)).2 rs h id p hm
+
+/-- A task waits for somebody else's download only if that download runs
+    under the task's own digest string; the URI plays no part. -/
+theorem join_only_under_own_digest (P : Params) (s : SState) (id : Nat)
+    (h : (FetchSched.step P s (.enter id)).2 = .join) :
+    ∃ t f, findTask s id = some t ∧ f ∈ s.flights ∧ f.key = t.req.key :=
+  join_same_key P s id h
+
+end sched
+
 /-! ## digest strings -/
 
 /-- A digest string that parses names sha256 with 32 bytes or sha512 with 64. -/
@@ -341,6 +464,62 @@ theorem digest_algos_tie :
   · split at h
     · exact Or.inr ‹_›
     · exact absurd rfl h
+
+/-- `ParseDigest` accepts exactly the well-formed texts: an algorithm name
+    without a colon, the first colon, and hex digits decoding to as many bytes
+    as `setChecksum` wants for that algorithm. -/
+theorem parse_accepts_exactly_wellformed (t : Bytes) (d : Digest) :
+    digestParse t = some d ↔
+      ∃ hx, t = d.algo ++ 58 :: hx ∧ 58 ∉ d.algo ∧ hexDecode hx = some d.checksum ∧
+        digestSize d.algo = some d.checksum.length :=
+  FetchMisc.digestParse_iff t d
+
+/-- The canonical text of a digest (`String()`) parses back to the digest. -/
+theorem canonical_text_parses_back (d : Digest) (hs : digestSize d.algo = some d.checksum.length)
+    (hb : ∀ b ∈ d.checksum, b < 256) : digestParse (digestRepr d) = some d :=
+  (FetchMisc.digestParse_iff _ d).2
+    ⟨hexEncode d.checksum, rfl, FetchMisc.algo_no_colon hs, hexDecode_hexEncode _ hb, hs⟩
+
+/-- `UnmarshalText` on any receiver succeeds exactly when `ParseDigest` does,
+    and then the receiver holds the parsed digest and its canonical text,
+    whatever it held before. -/
+theorem unmarshal_agrees_with_parse (d : FetchMisc.DVal) (t : Bytes) :
+    (FetchMisc.unmarshal d t).2 = (digestParse t).isSome ∧
+    ∀ dg, digestParse t = some dg → (FetchMisc.unmarshal d t).1 = ⟨dg.algo, dg.checksum, digestRepr dg⟩ :=
+  FetchMisc.unmarshal_ok d t
+
+/-- `Scan` of what `Value` produced for a parsed digest gives that digest back. -/
+theorem scan_value_roundtrip (d0 : FetchMisc.DVal) (t : Bytes) (dg : Digest) (h : digestParse t = some dg)
+    (hb : ∀ b ∈ dg.checksum, b < 256) :
+    FetchMisc.scan d0 (.str (FetchMisc.value (FetchMisc.unmarshal {} t).1)) = ((FetchMisc.unmarshal {} t).1, false) := by
+  have h1 := (FetchMisc.unmarshal_ok {} t).2 dg h
+  have hs : digestSize dg.algo = some dg.checksum.length := by
+    obtain ⟨_, _, _, _, hs⟩ := (FetchMisc.digestParse_iff t dg).1 h
+    exact hs
+  have h2 := canonical_text_parses_back dg hs hb
+  simp only [FetchMisc.scan, FetchMisc.value, h1]
+  rw [(FetchMisc.unmarshal_ok d0 (digestRepr dg)).2 dg h2]
+
+/-- `CheckResponse` returns nil exactly for the listed status codes. -/
+theorem check_response_ok_iff (codes : List Nat) (status : Nat) :
+    FetchMisc.checkResponse codes status = true ↔ status ∈ codes := by
+  simp [FetchMisc.checkResponse]
+
+/-- `detectCompression` on a slice of any length (also shorter than the
+    longest mask): a kind other than the default is reported only for a
+    detector whose whole mask fits into the slice and whose magic bytes are the
+    slice's first bytes. -/
+theorem sniff_needs_full_magic (b : Bytes) :
+    detectCompression b = Kind.ofName Gen.Fetch.defaultKind ∨
+    ∃ d ∈ Gen.Fetch.detectors, detectCompression b = Kind.ofName d.1 ∧ d.2.2.1 ≤ b.length ∧ b.take d.2.1.length = d.2.1 := by
+  unfold detectCompression
+  cases hf : Gen.Fetch.detectors.find? (detFires · b) with
+  | none => exact Or.inl rfl
+  | some d =>
+    refine Or.inr ⟨d, List.mem_of_find?_eq_some hf, rfl, ?_⟩
+    have := List.find?_some hf
+    simp only [detFires, Bool.and_eq_true, decide_eq_true_eq, beq_iff_eq] at this
+    exact ⟨this.1.1, this.1.2⟩
 
 /-! ## the generated tables say what the property needs -/
 
